@@ -1,27 +1,50 @@
 #!/usr/bin/env python3
-"""Apply a patch to /repo, run the given checks (default: all claimed), undo the patch.
+"""Run checks against a patched copy of the library.
 
   tools/try_patch.py PATCH [Cxx ...]      prints one line per check and a JSON summary on the last line
-"""
+
+Default: the patch is applied to a scratch git worktree of /repo (/tmp/mw/alt, created on demand, at /repo's HEAD)
+and ./check.py is run with DDSV_ALT_REPO pointing at it, so /repo itself and /verif/evidence are left alone and
+other check runs are not disturbed. With --in-repo the patch is applied to /repo itself
+(git -C /repo apply; ./check.py <id>; git -C /repo checkout -- .) — the procedure an outside reviewer would use;
+both give the same verdicts (the harness sources and the registered commands are the same).
+Replay files of these runs are kept (ALT mode: /tmp/mw/alt_out/replays, --in-repo: /verif/replays)."""
 import json, os, subprocess, sys
 ROOT = os.path.dirname(os.path.dirname(os.path.abspath(__file__)))
 sys.path.insert(0, os.path.join(ROOT, "tools"))
 import props
 
-patch = os.path.abspath(sys.argv[1])
-pids = sys.argv[2:] or sorted(p for p in props.PROPS if len(p) == 3)
-st = subprocess.run(["git", "-C", "/repo", "status", "--porcelain", "--untracked-files=no"], capture_output=True, text=True).stdout
+args = [a for a in sys.argv[1:] if a != "--in-repo"]
+in_repo = "--in-repo" in sys.argv[1:]
+patch = os.path.abspath(args[0])
+pids = args[1:] or sorted(p for p in props.PROPS if len(p) == 3)
+_slot = os.environ.get("DDSV_ALT_SLOT", "")   # a second slot allows two patch runs at the same time
+ALT, ALT_OUT = "/tmp/mw/alt" + _slot, "/tmp/mw/alt" + _slot + "_out"
+env = dict(os.environ)
+if in_repo:
+    tree = "/repo"
+else:
+    tree = ALT
+    head = subprocess.run(["git", "-C", "/repo", "rev-parse", "HEAD"], capture_output=True, text=True).stdout.strip()
+    if not os.path.isdir(ALT):
+        os.makedirs(os.path.dirname(ALT), exist_ok=True)
+        subprocess.run(["git", "-C", "/repo", "worktree", "add", "--detach", ALT, head], check=True, capture_output=True)
+    else:
+        subprocess.run(["git", "-C", ALT, "checkout", "-q", "--detach", head], check=True)
+    env["DDSV_ALT_REPO"] = ALT
+    env["DDSV_OUT"] = ALT_OUT
+st = subprocess.run(["git", "-C", tree, "status", "--porcelain", "--untracked-files=no"], capture_output=True, text=True).stdout
 if st.strip():
-    print("refusing: /repo has local modifications:\n" + st)
+    print(f"refusing: {tree} has local modifications:\n" + st)
     sys.exit(2)
-r = subprocess.run(["git", "-C", "/repo", "apply", patch], capture_output=True, text=True)
+r = subprocess.run(["git", "-C", tree, "apply", patch], capture_output=True, text=True)
 if r.returncode != 0:
     print("patch does not apply:", r.stderr)
     sys.exit(2)
 summary = {}
 try:
     for pid in pids:
-        p = subprocess.run([os.path.join(ROOT, "check.py"), pid], cwd=ROOT, capture_output=True, text=True)
+        p = subprocess.run([os.path.join(ROOT, "check.py"), pid], cwd=ROOT, capture_output=True, text=True, env=env)
         lines = [l for l in p.stdout.splitlines() if l.startswith("VIOLATION") or l.startswith("BUILD-FAILURE") or " -> " in l]
         verdict = "caught-oracle" if any(l.startswith("VIOLATION") and "no-failing-input-found" not in l for l in lines) else \
                   "caught-tie" if any(l.startswith("VIOLATION") for l in lines) else \
@@ -29,7 +52,6 @@ try:
         summary[pid] = verdict
         print(pid, verdict, "|", " ; ".join(l[:160] for l in lines[-3:]), flush=True)
 finally:
-    subprocess.run(["git", "-C", "/repo", "checkout", "--", "."])
-    subprocess.run(["git", "-C", "/repo", "clean", "-fdq", "src", "tests"])
-    # replay files of these runs are kept under replays/ for inspection
+    subprocess.run(["git", "-C", tree, "checkout", "--", "."])
+    subprocess.run(["git", "-C", tree, "clean", "-fdq", "src", "tests"])
 print(json.dumps(summary))
